@@ -31,6 +31,12 @@ type streamParams struct {
 	FPS      int    `json:"fps"`
 	LateTop  int    `json:"latetop"` // the top temporal/spatial layer first appears at this frame (0 = from the start)
 	NoYBit   bool   `json:"noy"`     // VP8: never mark up-switch points except keyframes
+	// the publisher's sequence numbers jump forward by JumpBy (more than the
+	// 8192-packet re-synchronisation window, less than 32768) at the start of
+	// frame JumpAt (encoder restart, long outage).  Outside the quantifier of
+	// C01/C03/C06: only C04 is judged in such runs.
+	JumpAt int `json:"jumpat,omitempty"`
+	JumpBy int `json:"jumpby,omitempty"`
 }
 
 type srcPkt struct {
@@ -110,6 +116,10 @@ func genStream(sp *streamParams) []*srcPkt {
 	patPos := 0
 	for f := 0; f < sp.Frames; f++ {
 		key := f == 0 || (sp.KFEvery > 0 && f%sp.KFEvery == 0)
+		if sp.JumpAt > 0 && f == sp.JumpAt {
+			seq += uint16(sp.JumpBy)
+			ext += int64(sp.JumpBy)
+		}
 		nt, ns := sp.NT, sp.NS
 		if ns < 1 {
 			ns = 1
